@@ -41,9 +41,13 @@ def tmpdir():
 
 def _make_tmp():
     global _TMP, _TMP_PID
-    _TMP = tempfile.mkdtemp(prefix="cutplace_verif_%d_" % os.getpid())
+    root = os.environ.get("VERIF_TMP")
+    if root and os.path.isdir(root):
+        _TMP = tempfile.mkdtemp(prefix="w%d_" % os.getpid(), dir=root)  # removed with the run's scratch directory
+    else:
+        _TMP = tempfile.mkdtemp(prefix="cutplace_verif_%d_" % os.getpid())
+        atexit.register(shutil.rmtree, _TMP, True)
     _TMP_PID = os.getpid()
-    atexit.register(shutil.rmtree, _TMP, True)
 
 
 _TMP_PID = None
